@@ -215,29 +215,24 @@ namespace smt
     SMT_EXPORT lit sat_core::new_at_most_one(std::vector<lit> ls) noexcept
     {
         assert(root_level());
+        // if some literal is already true, the at-most-one holds iff all the other literals are false..
+        for (auto it0 = ls.cbegin(); it0 != ls.cend(); ++it0)
+            if (value(*it0) == True)
+            {
+                std::vector<lit> others;
+                for (auto it1 = ls.cbegin(); it1 != ls.cend(); ++it1)
+                    if (*it1 != *it0)
+                        others.push_back(!*it1);
+                return new_conj(std::move(others));
+            }
         // we try to avoid creating a new variable..
         std::sort(ls.begin(), ls.end(), [](const auto &l0, const auto &l1)
-                  { return variable(l0) < variable(l1); });
+                  { return l0 < l1; }); // equal literals must be adjacent..
         lit p;
         size_t lits_size = 0;
         std::string s_expr = "amo";
         for (auto it0 = ls.cbegin(); it0 != ls.cend(); ++it0)
-            if (value(*it0) == True)
-            {
-                for (auto it1 = it0 + 1; it1 != ls.cend(); ++it1)
-                {
-                    if (value(*it1) == True || *it1 == !p)
-                        return FALSE_lit; // the at-most-one cannot be satisfied..
-                    else if (value(*it1) != False && *it1 != p)
-                    { // we need to include this literal in the at-most-one..
-                        p = *it1;
-                        s_expr += to_string(p);
-                        ls[lits_size++] = p;
-                    }
-                }
-                break;
-            }
-            else if (value(*it0) != False && *it0 != p)
+            if (value(*it0) != False && *it0 != p)
             { // we need to include this literal in the at-most-one..
                 p = *it0;
                 s_expr += to_string(p);
@@ -289,29 +284,24 @@ namespace smt
     SMT_EXPORT lit sat_core::new_exct_one(std::vector<lit> ls) noexcept
     {
         assert(root_level());
+        // if some literal is already true, the exact-one holds iff all the other literals are false..
+        for (auto it0 = ls.cbegin(); it0 != ls.cend(); ++it0)
+            if (value(*it0) == True)
+            {
+                std::vector<lit> others;
+                for (auto it1 = ls.cbegin(); it1 != ls.cend(); ++it1)
+                    if (*it1 != *it0)
+                        others.push_back(!*it1);
+                return new_conj(std::move(others));
+            }
         // we try to avoid creating a new variable..
         std::sort(ls.begin(), ls.end(), [](const auto &l0, const auto &l1)
-                  { return variable(l0) < variable(l1); });
+                  { return l0 < l1; }); // equal literals must be adjacent..
         lit p;
         size_t j = 0;
         std::string s_expr = "^";
         for (auto it0 = ls.cbegin(); it0 != ls.cend(); ++it0)
-            if (value(*it0) == True)
-            {
-                for (auto it1 = it0 + 1; it1 != ls.cend(); ++it1)
-                {
-                    if (value(*it1) == True || *it1 == !p)
-                        return FALSE_lit; // the exact-one cannot be satisfied..
-                    else if (value(*it1) != False && *it1 != p)
-                    { // we need to include this literal in the exact-one..
-                        p = *it1;
-                        s_expr += to_string(p);
-                        ls[j++] = p;
-                    }
-                }
-                break;
-            }
-            else if (value(*it0) != False && *it0 != p)
+            if (value(*it0) != False && *it0 != p)
             { // we need to include this literal in the exact-one..
                 p = *it0;
                 s_expr += to_string(p);
@@ -321,13 +311,15 @@ namespace smt
 
         if (ls.empty()) // an empty exact-one is assumed to be unsatisfable..
             return FALSE_lit;
-        else if (ls.size() == 1 && sign(ls[0]))
+        else if (ls.size() == 1)
             return ls[0];
         else if (const auto at_expr = exprs.find(s_expr); at_expr != exprs.cend()) // the expression already exists..
             return at_expr->second;
         else
-        { // we need to create a new variable..
-            const auto ctr = new_at_most_one(ls);
+        { // we need to create a new variable (the at-most-one literal alone must not force the at-least-one clause)..
+            const auto ctr = lit(new_var());
+            if (!new_clause({!ctr, new_at_most_one(ls)}))
+                return FALSE_lit;
             ls.push_back(!ctr);
             if (!new_clause(std::move(ls)))
                 return FALSE_lit;
